@@ -39,6 +39,11 @@ pub enum Action {
     /// threads must not notice (thread ids / TLS slots / table slots of dead
     /// threads get reused or collide only after many thread creations).
     Churn { n: u16, m: u8 },
+    /// `n` extra threads ALIVE AT THE SAME TIME, all spawned by `tid`: each
+    /// sets mode `(m + i) % 8`; then every one of them (and `tid`) reads its
+    /// mode back and rounds a witness; then they exit, newest first.
+    /// (Bounded per-thread slot tables overflow only now.)
+    Crowd { n: u16, m: u8 },
 }
 
 #[derive(Clone, PartialEq, Eq, Debug)]
@@ -124,6 +129,7 @@ impl Step {
             ),
             Action::Sweep => "* sweep".to_string(),
             Action::Churn { n, m } => format!("{} churn n={} m={}", t, n, MODE_NAMES[*m as usize]),
+            Action::Crowd { n, m } => format!("{} crowd n={} m={}", t, n, MODE_NAMES[*m as usize]),
         }
     }
 
@@ -179,6 +185,14 @@ impl Step {
             "die" => Action::Die(Op::parse(&toks[2..])?),
             "exit" => Action::Exit { probe_late: kv("probe") == Some("late") },
             "sweep" => Action::Sweep,
+            "crowd" => Action::Crowd {
+                n: kv("n")
+                    .and_then(|v| v.parse::<u16>().ok())
+                    .ok_or_else(|| format!("crowd needs n=: {}", line))?,
+                m: kv("m")
+                    .and_then(mode_from_name)
+                    .ok_or_else(|| format!("crowd needs m=<mode>: {}", line))?,
+            },
             "churn" => Action::Churn {
                 n: kv("n")
                     .and_then(|v| v.parse::<u16>().ok())
